@@ -448,6 +448,178 @@ func genHistory(r *hx.Rand, g *ga.Gen, pools [][]*ga.Val, maxLen int, meta *hx.M
 	return b.String()
 }
 
+// ---------- re-entrant histories ----------
+
+// collidingValues returns two values of type t that are not Equal and have the same derived
+// Hash (31*(31*17+1)+0 == 31*(31*17+0)+31 for the elements of a slice; "Aa"/"BB" for strings),
+// or nil when no such pair is known for t.
+func collidingValues(g *ga.Gen, t *ga.Type) []*ga.Val {
+	str := func(s string) *ga.Val { return &ga.Val{K: "s", Str: []byte(s)} }
+	num := func(n string) *ga.Val { return &ga.Val{K: "i", Int: n} }
+	sl := func(es ...*ga.Val) *ga.Val { return &ga.Val{K: "sl", Loc: g.Fresh(), Elems: es} }
+	switch strings.ReplaceAll(t.Go(0), " ", "") {
+	case "[]int":
+		return []*ga.Val{sl(num("1"), num("0")), sl(num("0"), num("31"))}
+	case "string":
+		return []*ga.Val{str("Aa"), str("BB")}
+	case "[]string":
+		return []*ga.Val{sl(str("Aa")), sl(str("BB"))}
+	case "[]uint8":
+		return []*ga.Val{sl(num("1"), num("0")), sl(num("0"), num("31"))}
+	}
+	return nil
+}
+
+func idxList(l []int) string {
+	ss := make([]string, len(l))
+	for i, x := range l {
+		ss[i] = fmt.Sprint(x)
+	}
+	return "(" + strings.Join(ss, " ") + ")"
+}
+
+// genReentrant draws a universe of argument tuples (new ones, Equal variants of earlier ones, a
+// pair with a real hash collision where the parameter types allow one), 1..3 rules in rank order
+// (rule i+1 calls the key of rule i, so the recursion is i+1 deep; the driver drops what would
+// not be well-founded) and an outer history: the deepest key, or an inner tuple first, then a
+// flat tail over the whole universe (repeats of inner and outer arguments and of their Equal
+// variants).  Returns "U RULES OUTER".
+func genReentrant(r *hx.Rand, g *ga.Gen, s *sig, pools [][]*ga.Val, maxOuter int, meta *hx.Meta) string {
+	newTuple := func() []*ga.Val {
+		t := make([]*ga.Val, len(pools))
+		for j, p := range pools {
+			t[j] = hx.Pick(r, p).Clone(g.Fresh)
+		}
+		return t
+	}
+	var us [][]*ga.Val
+	nU := 3 + r.Intn(5)
+	for len(us) < nU {
+		if len(us) > 0 && r.Intn(10) < 3 {
+			us = append(us, equalVariant(r, g, us[r.Intn(len(us))]))
+		} else {
+			us = append(us, newTuple())
+		}
+	}
+	c0, c1 := -1, -1
+	var cand []int
+	for j, t := range s.Params {
+		if collidingValues(g, t) != nil {
+			cand = append(cand, j)
+		}
+	}
+	if len(cand) > 0 && r.Intn(4) != 0 {
+		j := hx.Pick(r, cand)
+		vs := collidingValues(g, s.Params[j])
+		base := newTuple()
+		a, b := make([]*ga.Val, len(base)), make([]*ga.Val, len(base))
+		for k := range base {
+			a[k], b[k] = base[k], base[k].Clone(g.Fresh)
+		}
+		a[j], b[j] = vs[0], vs[1]
+		if r.Bool() {
+			a, b = b, a
+		}
+		c0, c1 = len(us), len(us)+1
+		us = append(us, a, b)
+		meta.CountSafe("reentrant/real-collision-pair")
+	}
+	n := len(us)
+	perm := make([]int, n)
+	for i := range perm {
+		perm[i] = i
+	}
+	hx.Shuffle(r, perm)
+	nr := 1 + r.Intn(3)
+	if nr > n-1 {
+		nr = n - 1
+	}
+	keys := perm[:nr]
+	if c0 >= 0 && r.Intn(3) != 0 { // the colliding pair: outer argument and its inner argument
+		keys[0] = c0
+		for i := 1; i < nr; i++ {
+			if keys[i] == c0 {
+				keys[i] = perm[nr]
+			}
+		}
+	}
+	var rules []string
+	for i, k := range keys {
+		var in []int
+		if i > 0 && r.Intn(8) != 0 {
+			in = append(in, keys[i-1])
+		}
+		if i == 0 && k == c0 {
+			in = append(in, c1)
+		}
+		for x := r.Intn(3) + 1 - len(in); x > 0; x-- {
+			in = append(in, r.Intn(n))
+		}
+		if len(in) > 1 && r.Bool() {
+			hx.Shuffle(r, in)
+		}
+		rules = append(rules, fmt.Sprintf("(%d %s)", k, idxList(in)))
+	}
+	var outer []int
+	if r.Intn(4) == 0 { // an inner argument first: the inner call is then answered from the table
+		outer = append(outer, r.Intn(n))
+	}
+	outer = append(outer, keys[nr-1])
+	for x := r.Intn(maxOuter); x > 0; x-- {
+		outer = append(outer, r.Intn(n))
+	}
+	var b strings.Builder
+	b.WriteByte('(')
+	for i, t := range us {
+		if i > 0 {
+			b.WriteByte(' ')
+		}
+		b.WriteString(tupleSexp(t))
+	}
+	b.WriteString(") (" + strings.Join(rules, " ") + ") " + idxList(outer))
+	return b.String()
+}
+
+// corpusReentrant reads corpus/C18/*.re: `PARAMS -> RESULTS | FKIND | U | RULES | OUTER` (the
+// signature as in *.sig — it must also be listed there —, the rest literal s-expressions).
+func corpusReentrant(dir string, meta *hx.Meta) map[string][]string {
+	out := map[string][]string{}
+	files, _ := filepath.Glob(filepath.Join(dir, "*.re"))
+	sort.Strings(files)
+	for _, f := range files {
+		b, err := os.ReadFile(f)
+		if err != nil {
+			continue
+		}
+		for _, l := range strings.Split(string(b), "\n") {
+			l = strings.TrimSpace(l)
+			if l == "" || l[0] == '#' {
+				continue
+			}
+			fs := strings.Split(l, "|")
+			if len(fs) != 5 {
+				meta.Notes = append(meta.Notes, "corpus line not understood: "+l)
+				continue
+			}
+			key := strings.ReplaceAll(fs[0], " ", "")
+			out[key] = append(out[key], strings.TrimSpace(fs[1])+" %s "+strings.TrimSpace(fs[2])+" "+strings.TrimSpace(fs[3])+" "+strings.TrimSpace(fs[4]))
+		}
+	}
+	return out
+}
+
+// corpusKey spells a signature as the corpus does.
+func (s *sig) corpusKey() string {
+	var ps, rs []string
+	for _, p := range s.Params {
+		ps = append(ps, strings.ReplaceAll(p.Go(0), " ", ""))
+	}
+	for _, r := range s.Results {
+		rs = append(rs, strings.ReplaceAll(r.Go(0), " ", ""))
+	}
+	return strings.Join(ps, ";") + "->" + strings.Join(rs, ";")
+}
+
 // ---------- the run ----------
 
 func classify(g hx.RunResult, vetOK bool) string {
@@ -467,9 +639,12 @@ func Run(cfg hx.Config) (*hx.Meta, error) {
 	cat := ga.NewCatalogue()
 	ts := candidates(cat)
 	perCell, extra, nhist, maxLen, poolMax, batchSize := 1, 0, 50, 12, 12, 30
+	nre, maxOuter := 24, 8
 	if cfg.Tier == "thorough" {
 		perCell, extra, nhist, maxLen, poolMax, batchSize = 4, 12, 800, 30, 20, 20
+		nre, maxOuter = 300, 16
 	}
+	reCorpus := corpusReentrant(cfg.Corpus, meta)
 
 	// parameter types whose Equal and Hash the generator accepts and that type-check (anything
 	// else is the subject of C01/C02/C04/C09, not of C18)
@@ -620,6 +795,32 @@ func Run(cfg hx.Config) (*hx.Meta, error) {
 				if bucket && coll[p.Idx[i]] {
 					fmt.Fprintf(&cases, "memhist %d %s coll %s\n", p.Idx[i], fkind, h)
 					meta.CountSafe("histories/" + s.Form() + "/coll")
+				}
+			}
+			// re-entrant histories: f calls the memoised function itself (not for the
+			// zero-argument form: there every inner call is Equal to the call in progress)
+			if len(s.Params) == 0 {
+				continue
+			}
+			variants := []string{"derived"}
+			if bucket && coll[p.Idx[i]] {
+				variants = append(variants, "coll")
+			}
+			for _, c := range reCorpus[s.corpusKey()] {
+				for _, v := range variants {
+					fmt.Fprintf(&cases, "memre %d "+c+"\n", p.Idx[i], v)
+					meta.CountSafe("reentrant/corpus/" + s.Form() + "/" + v)
+				}
+			}
+			for k := 0; k < nre; k++ {
+				fkind := "canon"
+				if rb.Intn(5) == 0 {
+					fkind = "panicky"
+				}
+				c := genReentrant(rb, g2, s, pools, maxOuter, meta)
+				for _, v := range variants {
+					fmt.Fprintf(&cases, "memre %d %s %s %s\n", p.Idx[i], fkind, v, c)
+					meta.CountSafe("reentrant/" + s.Form() + "/" + v)
 				}
 			}
 		}
